@@ -23,10 +23,12 @@ type c11ncfg struct {
 	Labels   map[string]string
 	Backend  c11backend
 	UserID   string
+	Cities   []string
+	Gain     complex128
 }
 
 func HarnessC11Names() {
-	all := []string{"USER_IDS", "HTTP_PORT", "MAX_QPS", "LABELS", "BACKEND_ALLOWED_IPS", "USER_ID"}
+	all := []string{"USER_IDS", "HTTP_PORT", "MAX_QPS", "LABELS", "BACKEND_ALLOWED_IPS", "USER_ID", "CITIES", "GAIN"}
 	decoys := []string{"USER_I_DS", "USER_ID_S", "USERIDS", "HTTPPORT", "H_T_T_P_PORT", "MAX_Q_P_S", "MAXQPS", "BACKEND_ALLOWED_I_PS", "ALLOWED_IPS"}
 	clear := func() {
 		for _, n := range all {
@@ -68,6 +70,10 @@ func HarnessC11Names() {
 	if hID {
 		zzverif.Setenv("USER_ID", "me")
 	}
+	// always present: an unquoted list element with an inner space, and a complex128 whose parts
+	// are not representable in float32
+	zzverif.Setenv("CITIES", "New York,Boston ")
+	zzverif.Setenv("GAIN", "0.1+0.2i")
 	t := dials.NewType(ptrify.Pointerify(reflect.TypeOf(c11ncfg{}), reflect.Value{}))
 	val, err := (&Source{}).Value(context.Background(), t)
 	inRange := zzverif.Implies(hPort, zzverif.And(port >= -1<<15, port <= 1<<15-1))
@@ -95,6 +101,10 @@ func HarnessC11Names() {
 		ips := f("Backend").Elem().FieldByName("AllowedIPs")
 		zzverif.Assert(!ips.IsNil() && ips.Len() == 1 && ips.Index(0).String() == "10.0.0.1", "C11 BACKEND_ALLOWED_IPS: wrong value")
 	}
+	ct := f("Cities")
+	zzverif.Assert(!ct.IsNil() && ct.Len() == 2 && ct.Index(0).String() == "New York", "C11 CITIES: an unquoted list element containing a space did not arrive as written")
+	g := f("Gain")
+	zzverif.Assert(!g.IsNil() && g.Elem().Complex() == complex(0.1, 0.2), "C11 GAIN: a complex128 leaf does not hold the parsed value (parts rounded to float32?)")
 	lb := f("Labels")
 	zzverif.Assert(lb.IsNil() == (hLabels == 0), "C11 LABELS: map set/unset wrongly")
 	if hLabels != 0 && !lb.IsNil() {
